@@ -210,6 +210,23 @@ func init() {
 	}
 }
 
+func init() {
+	judges["ps-c11"] = func(r *Run) []Finding {
+		fs := onlyRules(ruleFindings(r), "suci.", "plmn.")
+		fs = append(fs, rigEnded(r)...)
+		regs := 0
+		for _, e := range r.Events {
+			if e.Ev == "ul" && strings.HasSuffix(e.Label, "/RegistrationRequest") && e.Info["identity"] != nil && e.Info["uli_plmn"] != nil {
+				regs++
+			}
+		}
+		if regs < len(r.Scn.Subscribers) && len(fs) == 0 {
+			fs = addFinding(fs, "unobserved.suci@"+lastSite(r), fmt.Sprintf("%d of %d registrations were observed: %s", regs, len(r.Scn.Subscribers), tail(r.StdoutText(), 160)), -1)
+		}
+		return fs
+	}
+}
+
 func checkC11(c *Ctx) {
 	c.Rule = "one evaluation = one simulated run (NG Setup + one registration, every 4th run also deregistration) whose SUCI and PLMN octets are decoded by the reference TS 24.501 9.11.3.4 / TS 38.413 decoders at the AMF; quick: seeded IMSIs over all MSIN lengths 1..10, both parities and MNC lengths; thorough: every MCC x every 2- and 3-digit MNC once with a random MSIN. distinct = distinct (MCC, MNC, MSIN length) triple; all are non-trivial. This is a configuration sweep of whole-system runs: it has no fault or schedule dimension"
 	c.Assume = append(c.Assume, assumptionsWS...)
@@ -248,9 +265,72 @@ func checkC11(c *Ctx) {
 			jobs = append(jobs, mk(root.Digits(3), root.Digits(2+root.Intn(2)), root, i))
 		}
 	}
+	// procedure-level part: several subscribers register (and some deregister) over one association
+	// after one NG Setup; some are roamers whose home PLMN differs from the serving PLMN, so that
+	// "the PLMN announced at NG Setup is repeated in every user-location IE" and "the SUCI is the
+	// one of that IMSI" are told apart, and state carried from one UE's identity to the next shows
+	nPS := 400
+	if c.Tier == "thorough" {
+		nPS = 40000
+	}
+	rp := root.Sub("ps")
+	for i := 0; i < nPS; i++ {
+		o := GenOpts{Profile: "c11-ps", Mode: "test", MinReg: 1, MaxReg: 1, Latency: "zero", ExplicitUEs: 4}
+		s := Gen(rp.Uint64(), o)
+		s.Args = []string{}
+		cfg := s.Config
+		n := rp.Range(2, 4)
+		subs := []string{cfg.IMSI}
+		seen := map[string]bool{cfg.IMSI: true}
+		for len(subs) < n {
+			var sub string
+			tail := rp.Digits(1 + rp.Intn(12-len(cfg.MNC)))
+			switch rp.Intn(3) {
+			case 0: // same PLMN, another MSIN (length may differ)
+				sub = cfg.MCC + cfg.MNC + tail
+			case 1: // roamer: another MCC/MNC with the same MNC length
+				sub = rp.Digits(3) + rp.Digits(len(cfg.MNC)) + tail
+			default: // roamer from a neighbouring PLMN: one digit differs
+				pl := []byte(cfg.MCC + cfg.MNC)
+				k := rp.Intn(len(pl))
+				pl[k] = byte('0' + (int(pl[k]-'0')+1+rp.Intn(9))%10)
+				sub = string(pl) + tail
+			}
+			if !seen[sub] {
+				seen[sub] = true
+				subs = append(subs, sub)
+			}
+		}
+		s.Subscribers = subs
+		s.Population = n
+		var dereg []interface{}
+		for k := 0; k < n; k++ {
+			if rp.Chance(1, 3) {
+				dereg = append(dereg, float64(k))
+			}
+		}
+		s.Rig = map[string]interface{}{"mode": "multi", "nea": 0, "nia": 2, "ran_id": 1 + rp.Intn(1000), "dereg": dereg}
+		// explicit network choices for every UE
+		for len(s.UEs) < n {
+			u := genUE(rp.Sub(fmt.Sprint("ue", i, len(s.UEs))), o, len(s.UEs))
+			u.AmfUeID = int64(1000*len(s.UEs)) + u.AmfUeID%1000
+			s.UEs = append(s.UEs, u)
+		}
+		jobs = append(jobs, Job{S: s, Rig: "ps", Judge: "ps-c11", Tag: "c11-ps-multi"})
+	}
 	triples := map[string]bool{}
 	c.Batch(jobs, func(j Job, r *Run, fs []Finding) {
 		cfg := j.S.Config
+		if len(j.S.Subscribers) > 0 {
+			c.Probes["multi-subscriber-procedure-runs"]++
+			for _, sub := range j.S.Subscribers[1:] {
+				if !strings.HasPrefix(sub, cfg.MCC+cfg.MNC) {
+					c.Probes["roaming-subscribers"]++
+				}
+			}
+			triples[fmt.Sprintf("ps/%s/%s/%d", cfg.MCC, cfg.MNC, len(j.S.Subscribers))] = true
+			return
+		}
 		triples[fmt.Sprintf("%s/%s/%d", cfg.MCC, cfg.MNC, len(cfg.IMSI)-3-len(cfg.MNC))] = true
 		if (len(cfg.IMSI)-3-len(cfg.MNC))%2 == 1 {
 			c.Probes["odd-msin"]++
